@@ -6,6 +6,7 @@ import (
 	"fmt"
 	"io"
 	"net/http"
+	"sync/atomic"
 	"time"
 
 	"github.com/failsafe-go/failsafe-go"
@@ -19,7 +20,8 @@ import (
 // caller's context being cancelled or expiring, so they are ordinary retryable errors of the documented retry rule. The
 // server holds the headers of scripted attempts back until the client has given up on the attempt, so such an attempt can
 // only end in the client's limit. A loaded machine can add spurious timeouts on the other attempts (more attempts),
-// never remove one, so the oracle is a lower bound on the attempts the server sees.
+// never remove one, so the oracle is a lower bound on the attempts handed to net/http (counted at the inner
+// RoundTripper: a spurious timeout during connection set-up keeps an attempt from ever reaching the server).
 func c18AttemptTimeouts(rep *vk.Report, idx int, srv *c18Server) {
 	r := vk.Rng(rep.Seed, "C18t", idx)
 	scripts := [][]srvStep{
@@ -47,7 +49,11 @@ func c18AttemptTimeouts(rep *vk.Report, idx int, srv *c18Server) {
 	req.Header.Set("X-Call", id)
 	tr := &http.Transport{}
 	defer tr.CloseIdleConnections()
-	client := &http.Client{Transport: tr}
+	// attempts are counted where the adapter hands them to net/http: an attempt that runs into its limit before it even
+	// reaches the server (connection set-up on a loaded machine) is an attempt all the same
+	var clientAttempts atomic.Int64
+	counted := rtFunc(func(r *http.Request) (*http.Response, error) { clientAttempts.Add(1); return tr.RoundTrip(r) })
+	client := &http.Client{Transport: counted}
 	if limit == "client-timeout" {
 		client.Timeout = 60 * time.Millisecond
 	} else {
@@ -56,7 +62,7 @@ func c18AttemptTimeouts(rep *vk.Report, idx int, srv *c18Server) {
 	ex := failsafe.NewExecutor[*http.Response](failsafehttp.RetryPolicyBuilder().Build())
 	var resp *http.Response
 	if entry == "roundtripper" {
-		resp, err = (&http.Client{Transport: failsafehttp.NewRoundTripperWithExecutor(tr, ex)}).Do(req)
+		resp, err = (&http.Client{Transport: failsafehttp.NewRoundTripperWithExecutor(counted, ex)}).Do(req)
 	} else {
 		resp, err = failsafehttp.NewRequestWithExecutor(req, client, ex).Do()
 	}
@@ -67,9 +73,7 @@ func c18AttemptTimeouts(rep *vk.Report, idx int, srv *c18Server) {
 		resp.Body.Close()
 	}
 	rep.Eval()
-	call.mu.Lock()
-	seen := len(call.attempts)
-	call.mu.Unlock()
+	seen := int(clientAttempts.Load())
 	want := 0
 	for k := 0; k < 3; k++ {
 		st := steps[min(k, len(steps)-1)]
@@ -84,20 +88,27 @@ func c18AttemptTimeouts(rep *vk.Report, idx int, srv *c18Server) {
 		return
 	}
 	if seen < want {
-		rep.Violate(idx, "C18/attempt-timeout-not-retried", fmt.Sprintf("%s, %s: the server held back the headers of scripted attempts (script %+v) so they ended in net/http's per-attempt timeout, a retryable error; the documented retry rule gives %d attempts, the server saw %d (returned status %d, err %v)", entry, limit, steps, want, seen, status, err), cs)
+		rep.Violate(idx, "C18/attempt-timeout-not-retried", fmt.Sprintf("%s, %s: the server held back the headers of scripted attempts (script %+v) so they ended in net/http's per-attempt timeout, a retryable error; the documented retry rule gives %d attempts, %d were made (returned status %d, err %v)", entry, limit, steps, want, seen, status, err), cs)
 		return
 	}
 	if seen > want {
 		rep.Count("http_attempt_timeout_calls_with_spurious_timeouts", 1)
 		return
 	}
-	if last := steps[min(seen-1, len(steps)-1)]; err == nil && status != last.Status {
+	call.mu.Lock()
+	serverSeen := len(call.attempts)
+	call.mu.Unlock()
+	if last := steps[min(seen-1, len(steps)-1)]; serverSeen == seen && err == nil && status != last.Status {
 		rep.Violate(idx, "C18/response-is-not-the-last-attempts", fmt.Sprintf("%s, %s: %d attempts, the last one answered %d, the call returned status %d", entry, limit, seen, last.Status, status), cs)
 		return
 	}
 	rep.Count("http_attempt_timeouts_retried", 1)
 	rep.Distinct(fmt.Sprintf("attempt-timeout|%s|%s|%d", entry, limit, len(steps)*10+want))
 }
+
+type rtFunc func(*http.Request) (*http.Response, error)
+
+func (f rtFunc) RoundTrip(r *http.Request) (*http.Response, error) { return f(r) }
 
 type bothRT struct{ calls *int }
 
